@@ -2,6 +2,7 @@ SPECIFICATION Spec
 CONSTANTS P = 4
           J = 2
           Horizon = 40
+          ListFailureUsesDirAge = FALSE
           SweepStopsWriter = TRUE
           StopOnWriteError = FALSE
           MaxFaults = 0
